@@ -33,6 +33,13 @@ const (
 func outcome(c *core.Ctx, cs *core.Case, want tri, fn func() (barcode.Barcode, error)) (barcode.Barcode, bool) {
 	var bc barcode.Barcode
 	var err error
+	if c.Reuse != nil {
+		// re-examination of a barcode that was returned earlier (it must still be what it was)
+		bc, _ = c.Reuse.(barcode.Barcode)
+		c.Reuse = nil
+		c.R.Accepted++
+		return bc, bc != nil
+	}
 	if p, w := Safely(func() { bc, err = fn() }); p {
 		c.Fail("C10", cs, "encoder panicked: %s", w)
 		return nil, false
@@ -57,6 +64,7 @@ func outcome(c *core.Ctx, cs *core.Case, want tri, fn func() (barcode.Barcode, e
 	if want == mustReject {
 		c.Fail("C10", cs, "content that is not representable in the symbology was accepted")
 	}
+	c.Last = bc
 	return bc, true
 }
 
